@@ -36,7 +36,9 @@ THEOREMS = ["QExPy.C04_key_unordered",
             "QExPy.C04_inferred_never_rejected",
             "QExPy.C04_inferred_is_sample_cov"]
 RULE = ("seeded histories (5-60 requests) over 2-6 operands of all kinds (single measurements incl. "
-        "zero uncertainty, plain reading arrays incl. equal length / collinear / zero spread, "
+        "zero uncertainty, plain reading arrays incl. equal length / collinear / zero spread / a large "
+        "mean with a small scatter (an accepted inference is judged against the exact rational "
+        "sample covariance of the readings), "
         "reading arrays with individual uncertainties, derived values, constants, plain numbers and "
         "strings): set_correlation / set_covariance in function and method form, either argument "
         "order, numbers from {0, tiny, mid, +-(1-ulp), +-1, +-(1+ulp), +-1.5, sigma_a*sigma_b in "
@@ -67,11 +69,28 @@ def sample_std(xs):
     return float(np.std(np.asarray(xs, dtype=float), ddof=1))
 
 
+def exact_sample_cov(xs, ys):
+    """(covariance, correlation) of two reading arrays with n-1 in the denominator, by Fractions"""
+    from fractions import Fraction as F
+    fx, fy = [F(x) for x in xs], [F(y) for y in ys]
+    n = len(fx)
+    mx, my = sum(fx) / n, sum(fy) / n
+    cov = sum((x - mx) * (y - my) for x, y in zip(fx, fy)) / (n - 1)
+    vx = sum((x - mx) ** 2 for x in fx) / (n - 1)
+    vy = sum((y - my) ** 2 for y in fy) / (n - 1)
+    rho = float(cov) / math.sqrt(float(vx) * float(vy)) if vx > 0 and vy > 0 else float("nan")
+    return float(cov), rho
+
+
 def gen_quantities(rng, malformed):
     nq = rng.randint(2, 6)
     qs = []
     n_common = rng.choice([2, 3, 4, 5, 8])
     base = None
+    # LARGE MEAN, SMALL SCATTER (frequency-counter readings, time stamps, a balance with a tare): the
+    # inferred covariance is a sum of products of DEVIATIONS, and must not lose them to cancellation.
+    # In an "offset" history every reading array is of that kind (so that they meet in an inference)
+    offset_case = rng.random() < 0.12
     for i in range(nq):
         r = rng.random()
         if r < 0.45:
@@ -96,8 +115,20 @@ def gen_quantities(rng, malformed):
                     base = raw
             else:
                 raw = [rng.gauss(rng.choice([0, 10, 1000]), rng.choice([0.1, 1, 5])) for _ in range(n)]
-            plain = not (rng.random() < 0.12)
+            off = None
+            if (offset_case and not (mode < 0.35 and base is not None and len(base) == n)) or \
+                    (mode >= 0.7 and rng.random() < 0.2):
+                off = rng.choice([1.0e6, 1.0e6, 1.0e8, 1.6e9, -3.0e7, 5.0e4])
+                sc = rng.choice([0.1, 0.5, 1e-2, 3.0])
+                raw = [off + round(rng.gauss(0, 1) * sc, 4) for _ in range(n)]
+                if len(set(raw)) < 2:
+                    raw[0] += sc
+                if base is None and rng.random() < 0.5:
+                    base = raw
+            plain = not (rng.random() < (0.04 if off is not None else 0.12))
             qd = {"kind": "repeated", "raw": [bits(x) for x in raw], "plain": plain}
+            if off is not None:
+                qd["offset"] = off
             if not plain:
                 qd["errs"] = [bits(H.rand_pos(rng)) for _ in range(n)]
             qs.append(qd)
@@ -247,8 +278,9 @@ def gen_case(rng, malformed=False, long=False, scenario=None):
             which = rng.choice(["corr", "cov"])
             v = gen_number(rng, which, std[a], std[b], malformed)
             reps = [i for i in meas if qs[i]["kind"] == "repeated" and qs[i]["plain"]]
-            if len(reps) >= 2 and rng.random() < 0.15:     # inference between reading arrays
-                a, b = rng.sample(reps, 2)
+            offs = [i for i in reps if qs[i].get("offset") is not None]
+            if len(reps) >= 2 and rng.random() < (0.4 if len(offs) >= 2 else 0.15):     # inference between reading arrays
+                a, b = rng.sample(offs if len(offs) >= 2 and rng.random() < 0.7 else reps, 2)
                 v = None
             # inference from arrays with individual uncertainties is outside the quantifier
             if v is None and qs[a]["kind"] == "repeated" and qs[b]["kind"] == "repeated" and \
@@ -648,6 +680,20 @@ def spec_check(c, o):
                             fail("inconsistent", "covariance != correlation * sigma_a * sigma_b "
                                  "at the time of recording", i, impl=[ca, va], sigmas=[stds[a], stds[b]])
                             return fails
+                        if v is None and qs[a]["kind"] == "repeated" and qs[b]["kind"] == "repeated" \
+                                and qs[a]["plain"] and qs[b]["plain"] and len(qs[a]["raw"]) == len(qs[b]["raw"]):
+                            # the inferred number IS the sample covariance of the two reading arrays:
+                            # exact rational arithmetic on the readings (no mean is rounded)
+                            ecov, erho = exact_sample_cov([unbits(x) for x in qs[a]["raw"]],
+                                                          [unbits(x) for x in qs[b]["raw"]])
+                            if abs(va - ecov) > 1e-7 * prod or abs(ca - erho) > 1e-7:
+                                fail("inferred-not-sample-cov:" + w + (":offset" if qs[a].get("offset") is not None
+                                     or qs[b].get("offset") is not None else ""),
+                                     "the inferred record of (q{}, q{}) is not the sample covariance / "
+                                     "correlation of the readings".format(a, b), i, impl=[ca, va],
+                                     expected=[erho, ecov], clause="inferred from equal-length reading "
+                                     "arrays; covariance = correlation * the two standard deviations")
+                                return fails
                         if v is not None:
                             x = unbits(v)
                             got = ca if w == "corr" else va
@@ -726,6 +772,8 @@ def run_cases(ctx, cases, ref=False, with_model=True):
         d["ops:" + ("<=8" if nops <= 8 else "9-20" if nops <= 20 else "21-60" if nops <= 60 else "61-150")] += 1
         for x in c["qs"]:
             d["kind:" + x["kind"] + ("" if x["kind"] != "repeated" or x["plain"] else "-with-errors")] += 1
+            if x.get("offset") is not None:
+                d["readings:large mean, small scatter (mean/scatter 1e4..1e11)"] += 1
         for op, io in zip(c["ops"], o["outs"]):
             if op[0] == "snap":
                 continue
@@ -737,6 +785,11 @@ def run_cases(ctx, cases, ref=False, with_model=True):
             elif op[0] == "reseed":
                 tag = "reseed:{}:{}".format(op[1], "same seed as at the start" if op[2] == c.get("seed0") else "other seed")
             d["op:{}:{}".format(tag, io if isinstance(io, str) else "number")] += 1
+            if op[0] == "set" and op[5] is None and io == "ok":
+                no = sum(1 for k in (op[3], op[4]) if c["qs"][k].get("offset") is not None)
+                d["inferred-accepted:checked against exact sample covariance:{}".format(
+                    ["ordinary readings", "one array with large mean / small scatter",
+                     "both arrays with large mean / small scatter"][no])] += 1
             typ = op[6] if op[0] == "set" and len(op) > 6 else op[3] if op[0] == "setstd" and len(op) > 3 else None
             if typ:
                 d["argtype:{}:{}".format(op[0], typ)] += 1
